@@ -56,7 +56,7 @@ def run_one(out):
         json.dump(meta, open(os.path.join(out, 'meta.json'), 'w'), indent=1)
         print(sid, 'confirmed', r.get('confirmed'), 'caught-by', [k for k, v in r.get('checks', {}).items() if v['rc'] == 1], 'missed-by', [k for k, v in r.get('checks', {}).items() if v['rc'] != 1], flush=True)
 
-def run(ids, jobs=4):
+def run(ids, jobs=8):
     from concurrent.futures import ThreadPoolExecutor
     outs = [o for o in sorted(glob.glob(os.path.join(V, 'seeded', '*'))) if not ids or os.path.basename(o) in ids]
     with ThreadPoolExecutor(max_workers=jobs) as ex:
